@@ -63,12 +63,26 @@ type Ref struct {
 
 type resolver func(path datamodel.Path, c cid.Cid) (data []byte, source string, ok bool)
 
+// ErrTooLarge ends a reference traversal that has grown past MaxRefVisits nodes or MaxRefLoads link
+// loads: DAGs with shared sub-DAGs make a recursive selector visit exponentially many paths (30 blocks
+// that each link twice to the next are 2^30 visits), which no check can afford and no case needs. Such
+// cases are outside the generated domain: every caller skips a case whose reference has an error.
+var ErrTooLarge = errors.New("dagen: reference traversal larger than the generated domain allows")
+
+const (
+	MaxRefVisits = 20000
+	MaxRefLoads  = 4000
+)
+
 func walk(root cid.Cid, sel ipld.Node, res resolver, budget int64) *Ref {
 	ref := &Ref{FromRemote: map[cid.Cid]bool{}}
 	lsys := cidlink.DefaultLinkSystem()
 	lsys.TrustedStorage = true
 	lsys.StorageReadOpener = func(lctx linking.LinkContext, l datamodel.Link) (io.Reader, error) {
 		c := l.(cidlink.Link).Cid
+		if len(ref.Loads) >= MaxRefLoads {
+			return nil, ErrTooLarge
+		}
 		data, src, ok := res(lctx.LinkPath, c)
 		ld := Load{Path: lctx.LinkPath.String(), Cid: c, Present: ok, Source: src}
 		ref.Loads = append(ref.Loads, ld)
@@ -115,6 +129,9 @@ func walk(root cid.Cid, sel ipld.Node, res resolver, budget int64) *Ref {
 			v.LastLink = p.LastBlock.Link.String()
 		}
 		ref.Visits = append(ref.Visits, v)
+		if len(ref.Visits) > MaxRefVisits {
+			return ErrTooLarge
+		}
 		return nil
 	})
 	ref.Err = err
